@@ -310,23 +310,58 @@ def closed_market_results(ctx, rep, R):
     prog = ctx.prog
     f = prog.own_method("Blotter", "process_closed_market")
     cfg = ctx.cfg(f)
+    from sa.kinds import expanded
+    own = "(order.selection_id, order.handicap)"
     ol = [lp for lp in walk_nodes(f.node.body, ast.For) if utext(lp.iter) == "self"]
     rl = [lp for lp in walk_nodes(f.node.body, ast.For) if utext(lp.iter) == "market_book.runners"]
-    good = len(ol) == 1 and len(rl) == 1 and rl[0] in walk_nodes(ol[0].body, ast.For) and \
-        not loop_body_exits_early(ol[0]) and not loop_body_exits_early(rl[0])
+    # accepted alternative: the final book indexed once by (selection id, handicap) - every runner under its own
+    # full key, duplicates kept in book order - and each order reading the entry of its own key
+    index = None
+    for lp in rl:
+        body = [x for x in lp.body if not isinstance(x, ast.Pass)]
+        if len(body) == 1 and isinstance(body[0], ast.Expr) and isinstance(body[0].value, ast.Call) and call_name(body[0].value) == "append" \
+                and utext(body[0].value.args[0]) == utext(lp.target) and lp not in [x for o in ol for x in walk_nodes(o.body, ast.For)]:
+            r = body[0].value.func.value
+            k_ = None
+            if isinstance(r, ast.Subscript):
+                k_, d_ = r.slice, r.value
+            elif isinstance(r, ast.Call) and call_name(r) == "setdefault" and len(r.args) == 2 and utext(r.args[1]) == "[]":
+                k_, d_ = r.args[0], r.func.value
+            tv = utext(lp.target)
+            if k_ is not None and utext(k_) in ("(%s.selection_id, %s.handicap)" % (tv, tv), "%s.selection_id, %s.handicap" % (tv, tv)):
+                index = utext(d_)
+    inner_idx = [lp for o in ol for lp in walk_nodes(o.body, ast.For)
+                 if index and isinstance(lp.iter, (ast.Subscript, ast.Call)) and (
+                     (isinstance(lp.iter, ast.Subscript) and utext(lp.iter.value) == index and expanded(f, lp.iter.slice) == own) or
+                     (isinstance(lp.iter, ast.Call) and call_name(lp.iter) == "get" and recv_text(lp.iter) == index
+                      and expanded(f, lp.iter.args[0]) == own))]
+    nested = [lp for lp in rl if ol and lp in walk_nodes(ol[0].body, ast.For)]
+    good = len(ol) == 1 and not loop_body_exits_early(ol[0]) and (
+        (len(nested) == 1 and not loop_body_exits_early(nested[0]) and not inner_idx) or
+        (len(inner_idx) == 1 and not loop_body_exits_early(inner_idx[0]) and not nested))
     rep.check(good, R, key(f, None, "every order of the blotter is matched against every runner of the final book"), f)
     want = {"order.runner_status": "runner.status", "order.market_type": "market_book.market_definition.market_type",
             "order.each_way_divisor": "market_book.market_definition.each_way_divisor"}
     sel = (ct("(order.selection_id, order.handicap) == (runner.selection_id, runner.handicap)"), True)
+
+    def own_runner_only(gs):
+        """the statement runs for the order's own runner and for nothing else"""
+        gs = [g for g in gs if g != ("self._orders", True)]
+        if inner_idx:
+            return all(t in ("%s in %s" % (own, index), "%s in %s" % (own.strip("()"), index)) and pol for t, pol in
+                       [(expanded(f, ast.parse(t_, mode="eval").body), p_) for t_, p_ in gs])
+        return gs == [sel]
     for tgt, val in want.items():
         ns = [n for n in cfg.live_nodes() if n.kind == "stmt" and isinstance(n.ast, ast.Assign) and utext(n.ast.targets[0]) == tgt]
-        good = len(ns) == 1 and utext(ns[0].ast.value) == val and \
-            [(utext(g.exprs[0]), pol) for g, pol in cfg.guards(ns[0].id)] == [sel]
+        good = len(ns) == 1 and utext(ns[0].ast.value) == (val if not (inner_idx and tgt == "order.runner_status") else
+                                                           "%s.status" % utext(inner_idx[0].target)) and \
+            own_runner_only([(utext(g.exprs[0]), pol) for g, pol in cfg.guards(ns[0].id)])
         rep.check(good, R, key(f, None, "%s taken from the order's own runner (selection and handicap), unconditionally" % tgt), f)
     dh = {}
     for n in cfg.live_nodes():
         if n.kind == "stmt" and isinstance(n.ast, ast.Assign) and utext(n.ast.targets[0]) == "order.number_of_dead_heat_winners":
-            gs = tuple(sorted((utext(g.exprs[0]), pol) for g, pol in cfg.guards(n.id) if utext(g.exprs[0]) != sel[0]))
+            gs = tuple(sorted((utext(g.exprs[0]), pol) for g, pol in cfg.guards(n.id) if utext(g.exprs[0]) != sel[0]
+                              and utext(g.exprs[0]) != "self._orders" and not (index and utext(g.exprs[0]).endswith(" in %s" % index))))
             dh[gs] = utext(n.ast.value)
     want_dh = {(("market_book.number_of_winners == 0", True),): "1",
                tuple(sorted([("market_book.number_of_winners == 0", False), (ct("number_of_winners > market_book.number_of_winners"), True)])): "number_of_winners"}
